@@ -16,6 +16,7 @@ def check(tree, rep, tier='quick', seed=0):
     R.k17_prompt_demand(core, rep)
     R.k29_prompt_quotes_the_waiters(core, rep)
     R.k17b_validation_on_demand(core, rep)
+    R.k13_add_form(core, rep)            # a form reached through an input first is loaded like one reached through a line first
     R.k10_refusal(core, rep)
     R.k2_signal_discipline(core, rep)
     R.k8_input_store_writes(core, rep)
